@@ -486,6 +486,16 @@ impl NotificationHandle {
         self.pending_validations.contains_key(peer)
     }
 
+    /// Verification hook: use another (bounded) user event channel.
+    pub(crate) fn verif_replace_event_rx(&mut self, event_rx: Receiver<InnerNotificationEvent>) {
+        self.event_rx = event_rx;
+    }
+
+    /// Verification hook: events queued in the user event channel.
+    pub fn verif_event_queue_len(&self) -> usize {
+        self.event_rx.len()
+    }
+
     /// Verification hook: queue `NotificationCommand::ForceClose` (otherwise only sent when a
     /// synchronous notification channel is clogged).
     pub fn verif_force_close(&self, peer: PeerId) {
